@@ -31,6 +31,8 @@ func main() {
 		os.Exit(cmdList(os.Args[2:]))
 	case "sweep":
 		os.Exit(cmdSweep(os.Args[2:]))
+	case "fields":
+		os.Exit(cmdFields(os.Args[2:]))
 	case "selftest":
 		os.Exit(cmdSelftest(os.Args[2:]))
 	default:
